@@ -834,14 +834,19 @@ macro "masked_eq" : tactic =>
            bgieCost, bgieGrad, nllCost, nllGrad, Model.C06.compress, Model.C06.scatterMask]
          <;> first | rfl | ring_nf | (congr 1; funext k; ring_nf) | (funext i; congr 1; funext k; ring_nf; try split_ifs <;> ring_nf))))
 
-/-- translated, masked path of `mean_square_error` (the branch taken when a mask is given, symbolically executed): it IS
-"keep the masked samples, apply the translated unmasked cost / gradient to them (normalised by the number of KEPT samples), scatter the
-gradient into zeros" -- false as soon as the branch normalises by the full size, scatters something else, masks only one operand … -/
-theorem gen_mse_masked {K : Type} [Field K] (n cnt : Nat) (idx : Nat → Nat) (M D : Nat → K) :
-    mseMaskedCost n cnt idx M D = mseCost cnt (Model.C06.compress idx M) (Model.C06.compress idx D)
-      ∧ mseMaskedGrad n cnt idx M D
-          = Model.C06.scatterMask cnt idx (mseGrad cnt (Model.C06.compress idx M) (Model.C06.compress idx D)) := by
-  constructor <;> masked_eq
+/-- translated, masked path of `mean_square_error` (the branch taken when a mask is given, symbolically executed), RELATIVE like `mse_grad`: the
+translated masked cost is an exact quadratic along every direction whose linear coefficient is the translated (scattered) masked gradient,
+`cost(M + tδ) = cost(M) + t·⟨grad(M), δ⟩ + t²·cost(D + δ)` -- for every mask, whatever count the branch normalises by (kept samples, all samples, …);
+false when the scattered gradient is not the derivative of the masked cost (wrong factor, wrong operand compressed, scatter of something else) -/
+theorem gen_mse_masked {K : Type} [Field K] (cnt n : Nat) (idx : Nat → Nat) (hidx : ∀ k, k < cnt → idx k < n) (M D δ : Nat → K) (t : K) :
+    mseMaskedCost n cnt idx (fun i => M i + t * δ i) D
+      = mseMaskedCost n cnt idx M D + t * (∑ i ∈ range n, mseMaskedGrad n cnt idx M D i * δ i)
+        + t ^ 2 * mseMaskedCost n cnt idx (fun i => D i + δ i) D := by
+  simp only [mseMaskedCost, mseMaskedGrad]
+  rw [← compress_scatter_adjoint' cnt n idx hidx]
+  simp only [Model.C06.compress, sumTo_eq, ofInt_eq, Finset.mul_sum, Finset.sum_mul, ← Finset.sum_add_distrib]
+  refine Finset.sum_congr rfl fun k _ => ?_
+  push_cast; ring
 
 /-- translated, masked path of `bias_and_gain_invariant_error` = compress, translated unmasked pair, scatter -/
 theorem gen_bgie_masked {K : Type} [Field K] (n cnt : Nat) (idx : Nat → Nat) (I D : Nat → K) :
@@ -861,10 +866,8 @@ theorem gen_nll_masked {K : Type} [Field K] (lg : K → K) (n cnt : Nat) (idx : 
 (masked) cost, for every mask (`idx` lists the kept positions of an array of `n` samples) -/
 theorem mse_masked_grad (cnt n : Nat) (idx : Nat → Nat) (hidx : ∀ k, k < cnt → idx k < n) (M D δ : Nat → ℝ) :
     HasDerivAt (fun t : ℝ => mseMaskedCost n cnt idx (fun i => M i + t * δ i) D)
-      (∑ i ∈ range n, mseMaskedGrad n cnt idx M D i * δ i) 0 := by
-  rw [(gen_mse_masked n cnt idx M D).2, funext fun t => (gen_mse_masked n cnt idx (fun i => M i + t * δ i) D).1]
-  exact masked_cost_grad cnt n idx hidx (fun x => mseCost cnt x (Model.C06.compress idx D))
-    (fun x => mseGrad cnt x (Model.C06.compress idx D)) (fun x d => mse_hasDerivAt cnt x _ d) M δ
+      (∑ i ∈ range n, mseMaskedGrad n cnt idx M D i * δ i) 0 :=
+  hasDerivAt_of_quadratic _ _ _ (mseMaskedCost n cnt idx (fun i => D i + δ i) D) (fun t => gen_mse_masked cnt n idx hidx M D δ t)
 
 /-- masked `bias_and_gain_invariant_error`, over the translated masked branch (at least one kept sample, kept model data not constant) -/
 theorem bgie_masked_grad (cnt n : Nat) (hcnt : 0 < cnt) (idx : Nat → Nat) (hidx : ∀ k, k < cnt → idx k < n) (I D δ : Nat → ℝ)
